@@ -290,6 +290,35 @@ def _expected_proto(m: Machine, req: str) -> Any:
     return m.protos[req]
 
 
+def _check_refs(m: Machine, path_id: str) -> list[tuple[str, str]]:
+    """Main file still there and every external reference still resolves in bounds."""
+    import onnx
+
+    ap = m.abspath(path_id)
+    if not os.path.exists(ap):
+        return [("missing_file", "main file vanished")]
+    try:
+        raw = onnx.load(ap, load_external_data=False)
+    except Exception as exc:
+        return [("unloadable", f"{type(exc).__name__}: {str(exc)[:100]}")]
+    bad = []
+    d = os.path.dirname(ap)
+    for t in _all_tensors(raw):
+        if t.data_location != onnx.TensorProto.EXTERNAL:
+            continue
+        info = {e.key: e.value for e in t.external_data}
+        fp = os.path.join(d, info.get("location", ""))
+        if not os.path.exists(fp):
+            bad.append(("external_ref_missing", f"{t.name}: {info.get('location')!r} missing"))
+            break
+        size = os.path.getsize(fp)
+        off, ln = int(info.get("offset", 0)), int(info.get("length", size))
+        if off + ln > size:
+            bad.append(("external_ref_out_of_bounds", f"{t.name}: {off}+{ln} > {size}"))
+            break
+    return bad
+
+
 def _check_file(m: Machine, path_id: str, req: str, mode: str, stats: Counter) -> list[tuple[str, str]]:
     """All oracle clauses for an export_file that returned."""
     import onnx
@@ -517,6 +546,14 @@ def run(plan: dict) -> dict:
                 for kind_, det in bad:
                     V(kind_, det, op)
                 m.expected[path_id] = (req, None, mode)
+                # an export to one path must not damage what was delivered to another (cheap reference check
+                # after every export; the full reload of every path follows at the end of the history)
+                for other, ent in sorted(m.expected.items()):
+                    if other == path_id or not ent:
+                        continue
+                    for kind_, det in _check_refs(m, other):
+                        V("other_path_damaged_" + kind_, f"after exporting to {path_id}: {other}: {det}", {**op, "req": ent[0], "mode": ent[2]})
+                    stats["cross_path_reference_checks"] += 1
                 log.add(i=idx, op=kind, req=req, mode=mode, path=path_id, fault=fired, bad=[b[0] for b in bad], io=dict(m.layer.counts))
                 check_handles(kind)
                 continue
@@ -572,7 +609,9 @@ def gen_ops(seed: int, run: int, tier: str, with_faults: bool, registry: list[st
     reqs += [r.choice(["fx::c15::autoflags", "fx::c15::named_io", "fx::c15::flat_f64", "fx::c15::fn_boundary_f64", "fx::c15::kwblock", "fx::c15::f16_cast_chain"])]
     if registry:
         reqs += r.sample(registry, min(2, len(registry)))
-    paths = ["a.onnx", "sub/dir/b.onnx", "rel:c.onnx"]
+    # three ordinary targets plus two whose names differ from "a.onnx" only by the suffix (no suffix, another
+    # suffix): their sidecars must not collide with a.onnx's
+    paths = ["a.onnx", "sub/dir/b.onnx", "rel:c.onnx", "a", "a.web"]
     ops: list[dict] = [{"op": "chdir", "to": "root"}] if r.random() < 0.4 else []
     sidecar_paths: set[str] = set()
     for _ in range(n_ops):
